@@ -541,8 +541,8 @@ def _names(tier):
     from ._ops import KSHAPES_Q, KSHAPES_T
     shapes = KSHAPES_T if tier == "thorough" else KSHAPES_Q
     tags = ["%dx%d" % s for s in shapes]
-    terrain = ["slope", "aspect", "curvature", "hillshade", "hillshade_az100_alt30", "mean_p1", "mean_p2", "mean_p3_excl",
-               "mean_p2_excl_nonan"]
+    terrain = ["slope", "aspect", "curvature", "hillshade", "hillshade_az100_alt30", "hillshade_az0_alt0", "hillshade_az360_alt90",
+               "mean_p1", "mean_p2", "mean_p3_excl", "mean_p2_excl_nonan"]
     focal = []
     for t in tags:
         focal += ["apply_mean_" + t, "apply_range_" + t, "apply_corner_" + t, "focal_stats_" + t,
@@ -551,7 +551,7 @@ def _names(tier):
     cell1 = ["binary", "reclassify", "equal_interval_k3", "equal_interval_k5"]
     two = ["gci", "nbr", "nbr2", "ndvi", "ndmi", "savi", "savi_sf0.25"]
     three = ["arvi", "evi", "sipi", "ebbi", "true_color", "true_color_nodata5"]
-    gens = ["perlin", "perlin_f23_s7", "generate_terrain", "generate_terrain_s3"]
+    gens = ["perlin", "perlin_f23_s7", "generate_terrain", "generate_terrain_s3", "perlin_s0_f31", "generate_terrain_full_extent"]
     return terrain, focal, cell1, two, three, gens
 
 
@@ -564,8 +564,8 @@ def build(tier):
         ChunkSpace(tier, "terrain_mean", terrain),
         ChunkSpace(tier, "focal_kernels", focal_main),
         ChunkSpace(tier, "classify_spectral", cell1 + two + three),
-        ChunkSpace(tier, "perlin", gens[:2]),
-        ChunkSpace(tier, "generate_terrain", gens[2:], stride=16 if tier == "quick" else 4),
+        ChunkSpace(tier, "perlin", gens[:2] + gens[4:5]),
+        ChunkSpace(tier, "generate_terrain", gens[2:4] + gens[5:], stride=16 if tier == "quick" else 4),
         MultiSpace(tier, two if not q else ["ndvi", "savi_sf0.25", "gci"], three if not q else ["evi", "true_color"]),
         NonFiniteSpace(tier, terrain + [f for f in focal if ("3x3" in f or "3x5" in f or "5x3" in f or "1x3" in f)
                                         and (not q or f.startswith(("apply_mean_", "convolution_", "hotspots_", "focal_stats_3x3")))]
